@@ -386,6 +386,85 @@ def close_after_send_case(res, rng, size, bound=40.0):
                     "bytes of that send", case, size, {"peer_read": len(received), "correct_prefix": good, "reader_error": err})
 
 
+def stalled_peer_case(res, rng, size, t8, stall, bound=40.0):
+    """The library's ACTIVE transport (`TcpClientConnection`, its own connected socket with whatever options it sets; T8 = `t8` s): a
+    message larger than the peer's receive window; the peer drains most of it, then does not read at all for `stall` s (> T8) while the rest
+    sits in the endpoint's send buffer — `send_data` has reported success by then —, then reads on.  Every byte of the send reported
+    successful has to arrive: a peer that is merely slow must not cost accepted bytes."""
+    srv = socket.socket()
+    srv.setsockopt(socket.SOL_SOCKET, socket.SO_REUSEADDR, 1)
+    srv.setsockopt(socket.SOL_SOCKET, socket.SO_RCVBUF, 64 * 1024)       # inherited by the accepted socket
+    srv.bind(("127.0.0.1", 0))
+    srv.listen(1)
+    srv.settimeout(6)
+    port = srv.getsockname()[1]
+    settings = secsgem.hsms.HsmsSettings(address="127.0.0.1", port=port, connect_mode=secsgem.hsms.HsmsConnectMode.ACTIVE, t8=t8, t5=30)
+    conn = settings.create_connection()
+    connected = threading.Event()
+    conn.on_connected.register(lambda _: connected.set())
+    conn.enable()
+    case = {"kind": "stalled-peer", "size": size, "t8": t8, "stall_s": stall}
+    try:
+        peer, _ = srv.accept()
+    except OSError:
+        res.violate("loopback-listen", "active transport did not connect within 6 s of enable()", case)
+        return
+    if not connected.wait(5):
+        res.violate("loopback-listen", "active transport did not report the connection within 5 s", case)
+        return
+    payload = rng.bytes(size)
+    received = bytearray()
+    reported = threading.Event()
+    reader_done = threading.Event()
+    err = []
+
+    def reader():
+        peer.settimeout(stall + 15)
+        try:
+            while len(received) < size - 512 * 1024:
+                d = peer.recv(256 * 1024)
+                if not d:
+                    break
+                received.extend(d)
+            if reported.wait(6):
+                time.sleep(stall)                          # the stall: nothing is read, the window is closed, the rest waits in the send buffer
+            while len(received) < size:
+                d = peer.recv(256 * 1024)
+                if not d:
+                    break
+                received.extend(d)
+        except OSError as exc:
+            err.append(repr(exc))
+        reader_done.set()
+    threading.Thread(target=reader, daemon=True).start()
+    result = []
+    finished = threading.Event()
+
+    def sender():
+        result.append(conn.send_data(payload))
+        reported.set()
+        finished.set()
+    threading.Thread(target=sender, daemon=True).start()
+    if not finished.wait(bound):
+        reported.set()
+        res.violate("loopback-send-hang", f"send_data() did not return within {bound:.0f} s although the peer reads", case, None, result)
+        return
+    reader_done.wait(stall + 20)
+    res.count(("stalled-peer", size, t8, stall), sample={"op": "active transport: send reported, peer stalls longer than T8, then reads on", **case,
+                                                         "send_data": result, "peer_read": len(received)})
+    res.bump("stalled_peer", f"send_data={result} complete={bytes(received[:size]) == payload}")
+    if result == [True] and bytes(received[:size]) != payload:
+        good = 0
+        while good < min(len(received), size) and received[good] == payload[good]:
+            good += 1
+        res.violate("stall-discards-accepted-bytes", f"send_data returned True; the peer did not read for {stall} s (T8 = {t8} s) and then read on: "
+                    "it did not get all bytes of that send (the connection was given up on a peer that was only slow)", case, size,
+                    {"peer_read": len(received), "correct_prefix": good, "reader_error": err})
+    threading.Thread(target=conn.disable, daemon=True).start()
+    peer.close()
+    srv.close()
+
+
 def send_message_truthful_case(res):
     """`Protocol.send_message` may say True only for blocks that were sent: a send that is still in progress after T3 (1 s here) and then
     fails must not have been reported as successful in the meantime."""
@@ -415,6 +494,9 @@ def send_message_truthful_case(res):
 
 def loopback_part(res, rng, big):
     close_after_send_case(res, rng, (3 if big else 2) * 1024 * 1024 + 5)
+    stalled_peer_case(res, rng, 1024 * 1024 + 5, t8=1, stall=2.5)
+    if big:
+        stalled_peer_case(res, rng, 2 * 1024 * 1024 + 5, t8=5, stall=7.0)      # the default T8
     cid = 0
     if big:
         plans = []
